@@ -12,6 +12,8 @@ import (
 	"os"
 	"path/filepath"
 	"strings"
+	"sync"
+	"time"
 
 	"github.com/ethereum/go-ethereum/common"
 	"github.com/ethereum/go-ethereum/crypto"
@@ -43,6 +45,7 @@ type handed struct {
 
 // fakeMessaging records what is broadcast.
 type fakeMessaging struct {
+	mu     sync.Mutex
 	sent   []handed
 	refuse map[string]bool
 }
@@ -50,11 +53,18 @@ type fakeMessaging struct {
 func (m *fakeMessaging) Start(context.Context, service.Runner) error       { return nil }
 func (m *fakeMessaging) AddValidator(p2p.ValidatorFunc, ...p2pmsg.Message) {}
 func (m *fakeMessaging) AddMessageHandler(...p2p.MessageHandler)           {}
-func (m *fakeMessaging) SendMessage(_ context.Context, msg p2pmsg.Message, _ ...retry.Option) error {
+func (m *fakeMessaging) SendMessage(ctx context.Context, msg p2pmsg.Message, _ ...retry.Option) error {
+	// like the real mechanisms (publishing through retry.FunctionCall, callbacks that select on ctx.Done()), the
+	// stand-in refuses to work under a context that has ended
+	if err := ctx.Err(); err != nil {
+		return err
+	}
 	e, ok := msg.(*p2pmsg.EonPublicKey)
 	if !ok {
 		return errors.New("unexpected message type")
 	}
+	m.mu.Lock()
+	defer m.mu.Unlock()
 	m.sent = append(m.sent, handed{string(e.PublicKey), e.ActivationBlock, e.KeyperConfigIndex, e.Eon})
 	if m.refuse[string(e.PublicKey)] {
 		return errors.New("refused")
@@ -101,7 +111,10 @@ func Run(cfg Config) (int, error) {
 		msg := &fakeMessaging{refuse: map[string]bool{}}
 		var called []handed
 		refuseCb := map[string]bool{}
-		cb := func(_ context.Context, k keyper.EonPublicKey) error {
+		cb := func(ctx context.Context, k keyper.EonPublicKey) error {
+			if err := ctx.Err(); err != nil {
+				return err
+			}
 			called = append(called, handed{string(k.PublicKey), k.ActivationBlock, k.KeyperConfigIndex, k.Eon})
 			if refuseCb[string(k.PublicKey)] {
 				return errors.New("refused")
@@ -246,6 +259,91 @@ func Run(cfg Config) (int, error) {
 		}
 		pool.Close()
 		srv.Close()
+	}
+	// the polling loop itself (what Start hands to the service runner): a tick that ends in an error — the mechanism
+	// refuses a key — must not be the last one; a key recorded afterwards is handed over by a later tick
+	loops := 3
+	if cfg.Tier == "thorough" {
+		loops = 40
+	}
+	for lp := 0; lp < loops && len(res.Violations) == 0; lp++ {
+		db := kdb.New()
+		srv := pgfake.NewServer(db)
+		kdb.Register(srv)
+		pool, err := srv.Pool(ctx, 2)
+		if err != nil {
+			return 2, err
+		}
+		mode := []string{"b", "c"}[lp%2]
+		msg := &fakeMessaging{refuse: map[string]bool{"loop-key-1": true}}
+		var cmu sync.Mutex
+		var called []handed
+		cb := func(ctx context.Context, k keyper.EonPublicKey) error {
+			if err := ctx.Err(); err != nil {
+				return err
+			}
+			cmu.Lock()
+			defer cmu.Unlock()
+			called = append(called, handed{string(k.PublicKey), k.ActivationBlock, k.KeyperConfigIndex, k.Eon})
+			if string(k.PublicKey) == "loop-key-1" {
+				return errors.New("refused")
+			}
+			return nil
+		}
+		var h *keyper.VerifEonPubKeyHandler
+		if mode == "b" {
+			h = keyper.VerifNewEonPubKeyHandler(pool, kcfg, msg, nil, true)
+		} else {
+			h = keyper.VerifNewEonPubKeyHandler(pool, kcfg, msg, cb, false)
+		}
+		seenKey := func(pk string) bool {
+			msg.mu.Lock()
+			cmu.Lock()
+			defer msg.mu.Unlock()
+			defer cmu.Unlock()
+			for _, g := range append(append([]handed{}, msg.sent...), called...) {
+				if g.pk == pk {
+					return true
+				}
+			}
+			return false
+		}
+		addKey := func(pk string, eon int64) {
+			st := srv.State().(*kdb.DB).Clone().(*kdb.DB)
+			if len(st.TendermintBatchConfig) == 0 {
+				st.TendermintBatchConfig = append(st.TendermintBatchConfig, kdb.TendermintBatchConfigRow{KeyperConfigIndex: 0, Height: 1,
+					Keypers: shdb.EncodeAddresses([]common.Address{addr(10), me}), Threshold: 2, Started: true, ActivationBlockNumber: 100})
+			}
+			st.Eons = append(st.Eons, kdb.EonRow{Eon: eon, Height: 5, ActivationBlockNumber: 100, KeyperConfigIndex: 0})
+			st.OutgoingEonKeys = append(st.OutgoingEonKeys, kdb.OutgoingEonKeyRow{EonPublicKey: []byte(pk), Eon: eon})
+			srv.SetState(st)
+		}
+		waitFor := func(pk string, d time.Duration) bool {
+			for end := time.Now().Add(d); time.Now().Before(end); time.Sleep(5 * time.Millisecond) {
+				if seenKey(pk) {
+					return true
+				}
+			}
+			return seenKey(pk)
+		}
+		addKey("loop-key-1", 1)
+		lctx, cancel := context.WithCancel(ctx)
+		done := make(chan error, 1)
+		go func() { done <- h.RunLoop(lctx, 20*time.Millisecond) }()
+		first := waitFor("loop-key-1", 2*time.Second)
+		time.Sleep(time.Duration(10+10*lp%50) * time.Millisecond)
+		addKey("loop-key-2", 2)
+		second := waitFor("loop-key-2", 2*time.Second)
+		cancel()
+		<-done
+		pool.Close()
+		srv.Close()
+		res.Evaluations++
+		res.Count("polling-loop-runs:" + mode)
+		if !first || !second {
+			violate("spec", "not-all-handed", fmt.Sprintf("polling loop (mode %s, interval 20 ms): the first key (refused by the mechanism) was offered=%v; a key recorded after that failed tick was handed over within 2 s=%v", mode, first, second),
+				[]string{"loop: key 1 pending (mechanism refuses it), loop started, key 2 recorded after the failed tick"})
+		}
 	}
 	lines := []string{}
 	for _, it := range items {
